@@ -108,10 +108,14 @@ ReadLoop(s, q, api, id, evs, resume) ==
     ELSE IF p.k = "err" THEN R(s1, Tail(q), <<DoneEv(api, id, "terr")>>, FALSE)
     ELSE
       LET h == HandleFrame(s1, p)
-          g == GotEv(id, KindOf(p), p.t, IF p.k = "closeValid" THEN p.c ELSE 0)
+          \* the message APIs hand a completed message out as "data"; an (empty) first fragment carries no token
+          gk == IF p.k = "cont" /\ api \notin FrameApis THEN "data" ELSE KindOf(p)
+          g == GotEv(id, gk, IF p.k = "frag" THEN -1 ELSE p.t, IF p.k = "closeValid" THEN p.c ELSE 0)
       IN
       IF h.err # "nil" THEN R(h.s, Tail(q), <<DoneEv(api, id, h.err)>>, FALSE)
-      ELSE IF api \in FrameApis \/ p.k = "data" THEN R(h.s, Tail(q), <<g, DoneEv(api, id, "nil")>>, FALSE)
+      ELSE IF api \in FrameApis \/ p.k \in {"data", "cont"} THEN R(h.s, Tail(q), <<g, DoneEv(api, id, "nil")>>, FALSE)
+      \* a first fragment is kept by the message APIs, which go on with the next frame (flush and gate again)
+      ELSE IF p.k = "frag" THEN ReadLoop(h.s, Tail(q), api, id, evs \o fw, FALSE)
       ELSE ReadLoop(h.s, Tail(q), api, id, evs \o fw \o <<g>>, FALSE)
 
 \* Write / WriteFrame / Close / Flush and their asynchronous twins (the
@@ -149,13 +153,23 @@ Init ==
 
 EofFed == inq # <<>> /\ inq[Len(inq)].k = "eof"
 
+\* "fragclosecont" / "fragpingcont": a fragmented message with a control frame between its fragments, arriving
+\* at once - an empty first fragment, a Close (or a Ping), the final continuation frame
+Items(k, t) ==
+  IF k \in {"fragclosecont", "fragpingcont"}
+    THEN << [k |-> "frag", t |-> t, c |-> 0],
+            IF k = "fragclosecont" THEN [k |-> "closeValid", t |-> t, c |-> 1000] ELSE [k |-> "ping", t |-> t, c |-> 0],
+            [k |-> "cont", t |-> t, c |-> 0] >>
+    ELSE << [k |-> k, t |-> t, c |-> IF k = "closeValid" THEN 1000 ELSE 0] >>
+
 Peer(k) ==
   /\ np < MaxPeer /\ ~EofFed
-  /\ LET p  == [k |-> k, t |-> np + 1, c |-> IF k = "closeValid" THEN 1000 ELSE 0]
-         q1 == Append(inq, p)
+  /\ LET its == Items(k, np + 1)
+         p  == its[1]
+         q1 == inq \o its
          r  == IF park.api = "" THEN [s |-> st, q |-> q1, evs |-> <<>>, park |-> FALSE]
                ELSE ReadLoop(st, q1, park.api, park.id, <<>>, TRUE)
-         evs == <<PeerEv(p)>> \o r.evs \o <<SampleEv(r.s)>>
+         evs == [j \in DOMAIN its |-> PeerEv(its[j])] \o r.evs \o <<SampleEv(r.s)>>
      IN /\ st' = r.s /\ inq' = r.q
         /\ park' = IF r.park THEN park ELSE [api |-> "", id |-> 0]
         /\ np' = np + 1 /\ UNCHANGED <<nc, done>>
